@@ -311,14 +311,8 @@ def run(chk):
             chk.require(got == want, "R2", "tfhe_MuxRotate%s: result = accum + bk_i x ((X^a - 1) * accum)" % suffix, where=m.where,
                         ok="MulByXaiMinusOne(result, a, accum); ExternMul(result, bk_i); AddTo(result, accum)",
                         bad="calls: %s" % [(n, [sym.show(a) for a in ar]) for n, ar in got], variant=vn)
-        mm = v.fn("tLweMulByXaiMinusOne")
-        mmp, _ = summ.pieces(v, mm, hooks=NOINLINE)
-        r, ai, bk, tp = [p["n"] for p in mm.params]
-        mc = calls(mmp, "torusPolynomialMulByXaiMinusOne")
-        ok = len(mc) == 1 and len(mc[0]["loops"]) == 1 and rng(mc[0]["loops"][0]) == (ZERO, sym.add(P(tp, "k"), I(1))) and \
-            mc[0]["args"] == [sym.addr(sym.idx(P(r, "a"), mc[0]["loops"][0]["var"])), sym.sym(ai), sym.addr(sym.idx(P(bk, "a"), mc[0]["loops"][0]["var"]))]
-        chk.require(ok, "R2", "tLweMulByXaiMinusOne multiplies all k+1 components by X^a - 1", where=mm.where,
-                    ok="MulByXaiMinusOne(&result->a[i], a, &bk->a[i]) for i <= k", bad=[summ.show_piece(c)[:100] for c in mc], variant=vn)
+        from rules import c14 as _c14
+        _c14.check_tlwe_monomial(c04._Sub(chk, "R2"), v)
         sub = c11_adapter(chk, "R2")
         c11.check_monomial(sub, v, "torusPolynomialMulByXaiMinusOne", "coefsT", True)
         # ---------------- R3 rotation loop (both variants)
